@@ -41,7 +41,7 @@ def demo_doc(path):
 def parse_runs(lines, sid):
     runs = []
     for ln in lines:
-        m = re.match(r'(\S+) (C\d+) rc=(\d*) violations=(\d+)\s*(wall=([\d.]+)s)?',
+        m = re.match(r'(\S+) (C\d+) rc=(\d*) violations=(\d+)\s*(?:harness_errors=\d+\s*)?(wall=([\d.]+)s)?',
                      ln.strip())
         if m and m.group(1) in ('patch', sid):
             runs.append({'check': m.group(2),
